@@ -116,7 +116,7 @@ func buildModel(kinds string) {
 		c := fx.MustMint(spec, root)
 		var leaf bytes.Buffer
 		leaf.Write([]byte{0, 0})                            // version v1, leaf_type timestamped_entry
-		leaf.Write([]byte{0, 0, 0, 0, 0, 0, 0x10, byte(i)}) // timestamp = 0x1000+i identifies the entry
+		leaf.Write([]byte{0, 0, 0, 0, 0, 0, byte(0x10 + i>>8), byte(i)}) // timestamp = 0x1000+i identifies the entry
 		var extra bytes.Buffer
 		switch k {
 		case 'X', 'N', 'U', 'V':
@@ -232,14 +232,14 @@ func (s scenario) String() string {
 // methods (no synchronisation of their own, invisible to the race detector).
 type obs struct {
 	n       int
-	what    [128]byte // 'c' foundCert, 'p' foundPrecert, 'm' matcher(cert), 'q' matcher(precert)
-	id      [128]int  // entry identity from the leaf timestamp
-	idx     [128]int64
+	what    [2048]byte // 'c' foundCert, 'p' foundPrecert, 'm' matcher(cert), 'q' matcher(precert)
+	id      [2048]int  // entry identity from the leaf timestamp
+	idx     [2048]int64
 	ret     int64
 	err     string
 	done    bool
 	reqs    int
-	answers [64]string
+	answers [1024]string
 	nupd    int
 	upd     [16]int64 // values received from the updater channel, in order
 	counted bool
@@ -791,6 +791,10 @@ func scenarios(thorough, race bool) []scenario {
 	// back-offs it never does: the sleeper due at t = 1 s wins the tie against the timer and the scan then runs to its end)
 	add(3, 3, 1, 2, 0, 3, nil)
 	add(4, 2, 2, 2, 0, 2, nil)
+	// more fetch ranges than the range queue holds (the source's make(chan fetchRange, 1000) is capped at 256 by the
+	// rewriter, a model reduction): 300 entries in batches of 1 = 300 ranges. Anything that fills the queue before its
+	// consumers run (or never drains it) deadlocks here; one schedule, no faults.
+	add(300, 1, 1, 1, 0, 0, func(s *scenario) { s.Kinds = strings.Repeat("XPUP", 75) })
 	// ---- strengthening ----
 	// IgnoreParsingErrors on/off over all entry kinds (see the table at the top); counters are asserted in every scenario
 	add(4, 2, 1, 2, 1, 0, func(s *scenario) { s.Kinds, s.IgnoreErr = "XVWU", true })
